@@ -1,7 +1,8 @@
 package main
 
 // Deterministic replays of the specific failing inputs of the recorded C09
-// findings (known_findings.d/C09.json). Each scenario evaluates the property's
+// findings (known_findings.d/C09.json; C, D and E are fixed in /repo and stay
+// here as directed regression replays, F is still open). Each scenario evaluates the property's
 // own predicate (rebuild == fresh build; watch predicates report the edit) on a
 // minimal tree and reports a failure under its own kind and scenario name.
 
